@@ -130,6 +130,21 @@ def stream_len(tier, seed):
     for v in range(0, 65536, 257):
         add(b"\xfd" + struct.pack("<H", v) + b"\x55" * 8)
         add(b"\xfe" + struct.pack("<I", v) + b"\x55" * 8)
+    # every width followed by 1..8, 9 and 16 further bytes that are all different from one another and from the
+    # payload: a decoder that reads a word at some other offset (an aligned-load fast path, an off-by-one in the
+    # sub-slice) then sees a different value; the start address of the input varies from case to case in the harness
+    core_vals = [0, 1, 0xFC, 0xFD, 0xFE, 0xFF, 0x100, 0xFFFF, 0x10000, 0x10001, 0xFFFFFF, 0x1000000, 0xFFFFFFFF, 0x100000000,
+                 0x100000001, 0xFFFFFFFFFF, 0x1000000000000, 0xFFFFFFFFFFFFFF, 0x100000000000000, 0x0123456789ABCDEF,
+                 (1 << 63) - 1, 1 << 63, btc.U64MAX - 1, btc.U64MAX]
+    distinct = bytes([0xA1, 0xB2, 0xC3, 0xD4, 0xE5, 0xF6, 0x17, 0x28, 0x39, 0x4A, 0x5B, 0x6C, 0x7D, 0x8E, 0x9F, 0x10])
+    for v in core_vals:
+        for tl in (1, 2, 3, 4, 5, 6, 7, 8, 9, 16):
+            tail = distinct[:tl]
+            if v <= 0xFFFF:
+                add(b"\xfd" + struct.pack("<H", v) + tail, (rng.choice(counters),))
+            if v <= 0xFFFFFFFF:
+                add(b"\xfe" + struct.pack("<I", v) + tail, (rng.choice(counters),))
+            add(b"\xff" + struct.pack("<Q", v) + tail, (rng.choice(counters),))
     # exhaustive 5-byte forms over a stripe in thorough
     if tier == "thorough":
         for v in range(0, 1 << 20):
@@ -202,7 +217,7 @@ def stream_num(tier, seed):
                      ("read_u8", 1), ("read_u16", 2), ("read_u32", 4), ("read_i32", 4), ("read_u64", 8)):
         for k in range(12):
             val = btc.rand_bytes(rng, w)
-            for extra in (w - 1, w, w + 1, 2 * w, 2 * w + 1, 3 * w + 2):
+            for extra in sorted(set(list(range(1, 10)) + [w - 1, w, w + 1, 2 * w, 2 * w + 1, 3 * w + 2])):
                 if extra > 0:
                     add(entry, val + bytes(range(0x41, 0x41 + extra)))
     # shorter-than-width inputs
